@@ -66,6 +66,7 @@ Multi == [cdo     |-> <<"lt", "bang", "dash", "dash">>,
           pic     |-> <<"qmark", "gt">>,
           voidc   |-> <<"slash", "gt">>,
           etago   |-> <<"lt", "slash">>,
+          stag    |-> <<"lt", "x">>,              \* "<a"
           attr    |-> <<"sp", "x", "eq">>]        \* " a=": the way into an attribute value
 Atoms == Single \cup DOMAIN Multi
 ASSUME Alphabet \subseteq Atoms /\ DoctypeQuote \in {"remember", "toggle", "nonul"}
@@ -233,15 +234,20 @@ EmitCase(h, r) == Emit =>
                                end |-> IF r.op = "Err" THEN [panic |-> FALSE, eof |-> r.eof, none |-> r.none, at |-> r.at]
                                        ELSE [panic |-> TRUE, eof |-> FALSE, none |-> FALSE, at |-> 0]])>>, CaseFile)
 
-Sub(b, lo, hi) == SubSeq(b, lo + 1, hi)
+\* XmlStream.tla reads Text() / AttrVal() as byte values (it strips quotes and compares white space): one byte per class
+Byte(c) == CASE c = "dq" -> 34 [] c = "sq" -> 39 [] c = "sp" -> 32 [] c = "nl" -> 10 [] c = "nul" -> 0 [] c = "lt" -> 60 [] c = "gt" -> 62
+             [] c = "slash" -> 47 [] c = "bang" -> 33 [] c = "qmark" -> 63 [] c = "dash" -> 45 [] c = "eq" -> 61 [] c = "lb" -> 91
+             [] c = "rb" -> 93 [] c = "x" -> 120 [] c = "C" -> 67 [] c = "D" -> 68 [] c = "A" -> 65 [] c = "T" -> 84 [] c = "O" -> 79
+             [] c = "Y" -> 89 [] c = "P" -> 80 [] c = "E" -> 69
+Bytes(b, lo, hi) == [i \in 1..(hi - lo) |-> Byte(b[lo + i])]
+\* (\E r \in {e} : ...  makes TLC evaluate e once)
 Step ==
     /\ ~halted
-    /\ LET r == Call IN
+    /\ \E r \in {Call} :
        IF r.op = "Tok" THEN
-            LET b2 == [i \in 1..Len(buf) |-> IF (i - 1) \in r.norm THEN "sp" ELSE buf[i]]
-                text == Sub(b2, r.tlo, r.thi)
-                val == Sub(b2, r.vlo, r.vhi)
-            IN /\ buf' = b2 /\ pos' = r.hi /\ start' = r.hi /\ inTag' = r.tag2
+            \E b2 \in {IF r.norm = {} THEN buf ELSE [i \in 1..Len(buf) |-> IF (i - 1) \in r.norm THEN "sp" ELSE buf[i]]} :
+            \E text \in {Bytes(b2, r.tlo, r.thi)} : \E val \in {Bytes(b2, r.vlo, r.vhi)} :
+               /\ buf' = b2 /\ pos' = r.hi /\ start' = r.hi /\ inTag' = r.tag2
                /\ out' = r
                /\ hist' = Append(hist, [k |-> r.k, lo |-> r.lo, hi |-> r.hi, tlo |-> r.tlo, thi |-> r.thi,
                                         vlo |-> r.vlo, vhi |-> r.vhi, norm |-> r.norm])
@@ -269,7 +275,7 @@ TokRec == [err |-> FALSE, kname |-> o.k, n |-> o.hi - o.lo, al |-> TRUE, lo |-> 
            subsIn |-> In(o.tlo, o.thi, o.lo, o.hi) /\ In(o.vlo, o.vhi, o.lo, o.hi)]
 ErrRec == [err |-> TRUE, kname |-> "Error", n |-> 0, al |-> FALSE, lo |-> 0, hi |-> 0, off |-> pos', capEq |-> TRUE, relex |-> TRUE,
            gap |-> {}, edits |-> {}, subsIn |-> TRUE]
-XStep == CASE o.op = "Tok" -> X!Tok(o.k, Sub(buf', o.tlo, o.thi), Sub(buf', o.vlo, o.vhi))
+XStep == CASE o.op = "Tok" -> X!Tok(o.k, Bytes(buf', o.tlo, o.thi), Bytes(buf', o.vlo, o.vhi))
            [] o.op = "Err" -> X!ErrRep(o.eof, o.none)
            [] OTHER -> FALSE                    \* a panic is not a step of P
 TStep == CASE o.op = "Tok" -> T!Tok(TokRec)
